@@ -26,39 +26,72 @@ def apply(diff, dst):
         rc, o = sh("patch -p1 -s --no-backup-if-mismatch < %s" % diff, dst)
     return rc == 0, o
 
-def demo_cmd(ddir):
+def demo_cmds(ddir):
     run = os.path.join(ddir, "RUN.txt")
     text = open(run).read() if os.path.exists(run) else ""
+    cmds = []
     for line in text.splitlines():
-        l = line.strip().lstrip("$ ").strip()
-        if l.startswith("go test") or l.startswith("go run"):
-            return l.split(" 2>&1")[0].split(" | ")[0]
-    m = re.search(r"(go (?:test|run) [^`\n]+)", text)
-    return m.group(1).strip().split(" 2>&1")[0].split(" | ")[0] if m else None
+        m = re.search(r"(go (?:test|run) .+)$", line.strip())
+        if not m or line.strip().startswith(("#", "//")):
+            continue
+        c = m.group(1)
+        for cut in (" 2>&1", " | ", "   #", " ; ", "  (", " && ", "`"):
+            c = c.split(cut)[0]
+        c = c.rstrip("\\ ;").strip()
+        if "./" in c and c not in cmds:
+            cmds.append(c)
+    return cmds
 
-def place_demo(ddir, repo, cmd):
-    pkg = None
-    m = re.search(r"\./([\w/.\-]+)", cmd or "")
-    if m:
-        pkg = m.group(1).rstrip("/.")
-        if pkg.endswith("/..."): pkg = pkg[:-4]
+PKGDIRS = None
+
+def pkg_dir_for(repo, body, hint):
+    """directory of the package a demo file belongs to: by its package clause (unique basename) or the command's path"""
+    mm = re.search(r"^package (\w+)", body, re.M)
+    want = mm.group(1).replace("_test", "") if mm else None
+    cands = []
+    for d, _, fs in os.walk(repo):
+        if any(f.endswith(".go") for f in fs):
+            for f in fs:
+                if f.endswith(".go") and not f.startswith("zz_seed"):
+                    try:
+                        head = open(os.path.join(d, f)).read(4000)
+                    except Exception:
+                        continue
+                    m2 = re.search(r"^package (\w+)", head, re.M)
+                    if m2 and m2.group(1).replace("_test", "") == want:
+                        cands.append(d)
+                    break
+    if hint and os.path.isdir(os.path.join(repo, hint)) and (os.path.join(repo, hint) in cands or not cands):
+        return os.path.join(repo, hint)
+    if len(cands) == 1:
+        return cands[0]
+    if hint and os.path.isdir(os.path.join(repo, hint)):
+        return os.path.join(repo, hint)
+    return cands[0] if cands else repo
+
+def place_demo(ddir, repo, cmds):
+    hints = []
+    for cmd in cmds:
+        m = re.search(r"\./([\w/.\-]+)", cmd or "")
+        if m:
+            h = m.group(1).rstrip("/.")
+            if h.endswith("/..."): h = h[:-4]
+            hints.append(h)
     for root, _, files in os.walk(ddir):
         for fn in files:
             if not fn.endswith(".go.txt"): continue
             src = os.path.join(root, fn)
-            name = fn[:-4]
+            body = open(src).read()
             target = None
-            if pkg and os.path.isdir(os.path.join(repo, pkg)):
-                target = os.path.join(repo, pkg)
-            else:
-                body = open(src).read()
-                mm = re.search(r"^package (\w+)", body, re.M)
-                if mm:
-                    want = mm.group(1).replace("_test", "")
-                    for d, _, fs in os.walk(repo):
-                        if os.path.basename(d) == want and any(f.endswith(".go") for f in fs):
-                            target = d; break
-            shutil.copy(src, os.path.join(target or repo, name))
+            # a hint whose package name matches the file's package clause wins
+            mm = re.search(r"^package (\w+)", body, re.M)
+            want = mm.group(1).replace("_test", "") if mm else ""
+            for h in hints:
+                if os.path.basename(h) == want or (want == "f1" and h.endswith("pkg/f1")) or (want == "testing" and h.endswith("f1/testing")):
+                    target = os.path.join(repo, h); break
+            if target is None:
+                target = pkg_dir_for(repo, body, hints[0] if len(hints) == 1 else None)
+            shutil.copy(src, os.path.join(target, fn[:-4]))
 
 def main():
     args = sys.argv[1:]
@@ -107,17 +140,23 @@ def main():
                 meta["existing_suite"] = {"runs": k + 1, "packages_failing_every_run": [p for p, n in fails.items() if n == 3],
                                           "packages_failing_some_run": [p for p, n in fails.items() if n < 3]}
                 ran.append("go test -vet=off -count=1 ./... (up to 3 runs; load-sensitive tests flake on the unmodified tree too)")
-            cmd = demo_cmd(os.path.join(d, "demo"))
-            meta["demo_command"] = cmd
-            if cmd:
+            cmds = demo_cmds(os.path.join(d, "demo"))
+            meta["demo_command"] = cmds
+            if cmds:
                 copy_repo(clean)
-                place_demo(os.path.join(d, "demo"), mut, cmd)
-                place_demo(os.path.join(d, "demo"), clean, cmd)
-                rcm, om = sh(cmd, mut, timeout=900)
-                rcc, oc = sh(cmd, clean, timeout=900)
-                meta["demo_fails_with_mutant"] = (rcm != 0) or ("--- FAIL" in om)
-                meta["demo_passes_without"] = (rcc == 0) and ("--- FAIL" not in oc)
-                ran.append("demo with the mutant / on the unmodified tree: " + cmd)
+                place_demo(os.path.join(d, "demo"), mut, cmds)
+                place_demo(os.path.join(d, "demo"), clean, cmds)
+                fails_mut, passes_clean = False, True
+                for cmd in cmds:
+                    rcm, om = sh(cmd, mut, timeout=900)
+                    rcc, oc = sh(cmd, clean, timeout=900)
+                    if rcm != 0 or "--- FAIL" in om: fails_mut = True
+                    if rcc != 0 or "--- FAIL" in oc:
+                        passes_clean = False
+                        meta["demo_clean_output"] = oc[-600:]
+                meta["demo_fails_with_mutant"] = fails_mut
+                meta["demo_passes_without"] = passes_clean
+                ran.append("demo with the mutant / on the unmodified tree: " + " ; ".join(cmds))
                 copy_repo(mut); apply(os.path.join(d, "patch.diff"), mut)
             checks = [pid] + [c for c in meta.get("also_run", []) if c != pid]
             res = {}
